@@ -11,7 +11,7 @@ CHECKS = {
    text="Every multiset store up to the bound x every query of the product alphabet is run through tx3_resolver::inputs::resolve (the narrowest public seam that reaches narrowing and selection); the iteration order of the candidate set handed to the selector is an enumerated environment choice; soundness and completeness are judged by a predicate written from the property text. Exhaustive below the bound; the 50-candidate window is probed with 49/50/51-UTxO stores.",
    note="Amounts are non-negative and small; completeness only claimed for <= 50 specification candidates and for queries reachable from the language (single ref); the HashSet built inside SearchSpace::take is not observable."),
  "C04": dict(cat="exploration", design="§3 C04", technique="bounded exhaustive enumeration of block tuples (visiting schedules) x stores x candidate-set orders",
-   text="Every ordered tuple of up to 3 (thorough: 4) overlapping block types x every multiset store of up to 4 UTxOs at one address x optional collateral x every name-to-source-position assignment, through inputs::resolve and then reduce + Compiler::compile; selections must be pairwise disjoint, each block sound with respect to what earlier blocks took, and the emitted input list equal to the union of the selections without duplicates. A language-level family (2-3 input blocks named from 8 spellings incl. case variants and `collateral`, with / without a collateral block, single / many, 0..4 UTxOs) goes through parse / analyze / lower / resolve / compile with the same disjointness oracle.",
+   text="Every ordered tuple of up to 3 (thorough: 4) overlapping block types (11 types, two of them without `from`: ref-only and token-only) x every multiset store of up to 4 UTxOs at one address x optional collateral x every name-to-source-position assignment, through inputs::resolve and then reduce + Compiler::compile; selections must be pairwise disjoint, each block sound with respect to what earlier blocks took, and the emitted input list equal to the union of the selections without duplicates. A language-level family (2-3 input blocks named from 8 spellings incl. case variants and `collateral`, with / without a collateral block, single / many, 0..4 UTxOs) goes through parse / analyze / lower / resolve / compile with the same disjointness oracle.",
    note="No global completeness (matching) claim; block types and stores limited to the stated alphabets."),
  "C12": dict(cat="exploration", design="§3 C12", technique="deviation-bounded exhaustive enumeration of grammar derivations and single token edits, each case in an isolated worker",
    text="tx3.pest is read with pest_meta and, for every rule reachable from `program`, every derivation with <= 2 (thorough: 3) deviations inside that rule is generated in its shortest context; every single token edit (delete, duplicate, swap, 24 replacements, literal stretching) of every example program; 9 recursive shapes escalated to depth 64; reference cycles. Every string is parsed and, if it parses, analysed in a worker process under a 10 s / 4 GiB cap with the case announced beforehand, so a panic, abort or hang is attributed to its input. Exhaustive below the deviation bound; silent about strings needing more deviations.",
@@ -23,13 +23,13 @@ CHECKS = {
    text="Every source of the C12 enumeration plus, over the example corpus and two feature bases: every identifier token replaced by every other identifier of the program and by the built-in names, every call arity changed to 0 and +1, every line deleted / duplicated, every literal malformed, local chains of every length 1..16. For every program the analyzer accepts, lowering of every tx and Workspace::lower must succeed without panic.",
    note="Known analyzer gaps are listed per input (known/C13.corpus.inputs) for corpus-derived programs and per signature for grammar-derived ones; a new accepted-but-unlowerable corpus program is reported even if its failure looks like a known one."),
  "C09": dict(cat="exploration", design="§3 C09", technique="bounded exhaustive enumeration per axis (constructor index, field shapes <= 2 deviations, boundary integers, byte lengths) with an independent Plutus-Data reader as oracle",
-   text="Programs generated from source run through the whole pipeline; the inline datum / redeemer bytes of the emitted transaction are decoded with a Plutus-Data reader written from the plutus-core CDDL on top of an independent CBOR reader and compared with the value the expression denotes. Complete per axis: (N, i) constructor pairs, every +-2^k / +-(2^k+-1) integer, every byte length 0..100, all field-shape executions with <= 2 deviations, each in datum and redeemer position.",
+   text="Programs generated from source run through the whole pipeline; the inline datum / redeemer bytes of the emitted transaction are decoded with a Plutus-Data reader written from the plutus-core CDDL on top of an independent CBOR reader and compared with the value the expression denotes. Complete per axis: (N, i) constructor pairs, every +-2^k / +-(2^k+-1) integer, every byte length 0..100, all field-shape executions with <= 2 deviations (15 field kinds incl. maps whose keys are not ascending numerically, bytewise or by encoded length - entry order is part of the value), each in datum and redeemer position.",
    note="Expected encoding conventions (records = Constr 0, Bool = Constr 0/1, unit = Constr 0, strings as bytes) are taken from the language documentation; my reader is the trusted decoder."),
  "C08": dict(cat="exploration", design="§3 C08", technique="bounded exhaustive enumeration of relative orders of inputs / policies / reward accounts, oracle = ledger-sorted redeemer map",
-   text="Constant TIRs with 1..4 script inputs (single and 2-UTxO, both set iteration orders) over a ref pool whose txid and index orders disagree (all injective assignments), all sequences of 0..3 mints/burns over 3 policies and of 0..2 withdrawals over 3 reward accounts are compiled; the decoded witness-set map (tag, index) -> data must equal the map obtained by sorting the source items as the ledger does.",
+   text="Constant TIRs with 1..4 script inputs (single and 2-UTxO, both set iteration orders) over a ref pool whose txid order, numeric index order, textual index order and length-first CBOR order all disagree (indices 3 / 24 / 256; all injective assignments), all sequences of 0..3 mints/burns over 3 policies and of 0..2 withdrawals over 3 reward accounts are compiled; the decoded witness-set map (tag, index) -> data must equal the map obtained by sorting the source items as the ledger does.",
    note="One redeemer value per block / policy / account; certificates and votes not covered; quick tier explores each axis completely against fixed configurations of the other two, thorough the full product."),
  "C10": dict(cat="exploration", design="§3 C10", technique="exhaustive enumeration of all 2^19 optional-feature subsets of a constant template, payload re-decoded and hashes recomputed independently",
-   text="Every subset of 19 optional transaction features (incl. a second minting policy next to one whose mint and burn cancel, and output entries that cancel next to one that survives) is compiled; the payload must decode with pallas as Conway, its body bytes (located by an independent CBOR reader) must hash to the reported hash, auxiliary and script data hashes must be present exactly when needed and equal digests recomputed from the payload (language views re-encoded from the configured cost model), set-like fields must have no duplicate or empty entries, network id must match, and recompilation (same compiler, fresh compiler, other iteration order of a 2-UTxO set) must be byte-identical.",
+   text="Every subset of 19 optional transaction features (incl. a second minting policy next to one whose mint and burn cancel, and output entries that cancel next to one that survives) is compiled; the payload must decode with pallas as Conway, its body bytes (located by an independent CBOR reader) must hash to the reported hash, auxiliary and script data hashes must be present exactly when needed and equal digests recomputed from the payload (language views re-encoded from the configured cost model), set-like fields must have no duplicate or empty entries, network id must match, and recompilation (same compiler, fresh compiler, other iteration order of a 2-UTxO set) must be byte-identical. The two networks are configured with different cost models and every case is first compiled by an instance carrying the other configuration, so nothing derived from a configuration may outlive its instance.",
    note="pallas decoding and blake2b are trusted; a compile error is accepted only for the one feature combination where a redeemer guards a policy whose mint and burn cancel."),
  "C06": dict(cat="exploration", design="§3 C06", technique="exhaustive enumeration of IR contexts (every variant x child slot, nested to depth 2) x probes x Tx fields, oracle = generic structural walk of the serialised IR",
    text="Every one-level context (each Expression / BuiltInOp / CompilerOp / Coerce / Param / InputQuery / AssetExpr / AdHocDirective variant with the hole in each child slot) and every two-level nesting, around a parameter / query / fees / query-holding-a-parameter probe, placed in each of 19 Tx fields, plus every tx of the corpus: whatever a generic walk of the serialised TIR finds unresolved must be reported by find_params / find_queries, must be gone after supplying everything reported, and withholding any reported parameter must give MissingTxArg naming it.",
@@ -59,7 +59,7 @@ CHECKS = {
    text="Per template a breadth-first search explores states (canonical TIR, applied stage set, last-was-reduce) whose transitions are the real apply_args / apply_inputs / apply_fees / Node::apply(compiler) / reduce, with compiler ops enabled exactly when a generic walk finds their operands free of unresolved parameters. All terminal states must carry one canonical template, no schedule may fail when another succeeds, and reduce must be idempotent in every state. Templates: corpus, built-in bases (literal / param / env / local operands), every distinct program of the typed generator with <= 1 (thorough: 2) deviations (incl. asset classes that come from parameters while the amounts are literals), all tirgen trees of depth <= 1.",
    note="Canonical form sorts maps, UTxO sets and asset lists (sums); single-UTxO inputs; fresh compiler per compiler-op stage."),
  "C01": dict(cat="exploration", design="§3 C01", technique="deviation-bounded exhaustive enumeration of typed programs x arguments x UTxOs x fee x network x layout; oracle = independent big-step semantics over the generator's tree vs. independently decoded transaction",
-   text="Every execution of the typed program generator with <= 2 (thorough: 3) deviations from the plain transfer - program features, expression shapes and associations, datum kinds, mint/burn, validity built-ins, signers, metadata, references, collateral, argument value, UTxO contents, fee, network, 7 whitespace/comment layouts, block order, identifier spelling - is printed, run through parse/analyze/lower/apply/reduce/compile, decoded with an independent CBOR + Plutus-Data reader and compared field by field (inputs, outputs in order with address / lovelace / assets / inline datum, mint, validity interval, signers, reference and collateral inputs, metadata, fee, network) with the transaction [[P]] denotes.",
+   text="Every execution of the typed program generator with <= 2 (thorough: 3) deviations from the plain transfer - program features, expression shapes and associations, datum kinds, mint/burn, validity built-ins, signers, metadata, references, collateral, argument value, UTxO contents, fee, network, 7 whitespace/comment layouts, block order, identifier spelling - is printed, run through parse/analyze/lower/apply/reduce/compile, decoded with an independent CBOR + Plutus-Data reader and compared field by field (inputs, outputs in order with address / lovelace / assets / inline datum, mint, validity interval, signers, reference and collateral inputs, metadata, fee, network) with the transaction [[P]] denotes. The 25 example programs the front end accepted at the starting snapshot must still parse, analyse and lower.",
    note="The reference semantics and the decoders are mine and are the trusted base; inputs are applied directly (selection is C03's); programs needing more deviations than the bound are not reached."),
  "C02": dict(cat="exploration", design="§3 C02", technique="exhaustive sweep of a boundary-value alphabet through every quantity sink of the generator's balanced programs, exact reference arithmetic as oracle (value or must-fail)",
    text="Every generator program with <= 1 (thorough: 2) deviations is run with each of 37 boundary integers routed into one quantity sink at a time (output lovelace, token amount, mint and burn amount, validity slots, metadata and datum integers, thresholds) and with 5 holdings of the main input, through the staged pipeline with an explicit fee and through resolve_tx with a real store. A produced transaction must carry exactly the reference quantities and balance per asset class; if the exact value does not fit its ledger field, or 128-bit arithmetic overflows, the call must fail.",
